@@ -3,6 +3,7 @@
 package b
 
 import (
+	"time"
 	"encoding/json"
 	"fmt"
 	"os"
@@ -153,6 +154,54 @@ func unlockUnlocked() (func(), func(*vrt.Sched) (string, string)) {
 	return body, outcomeOnly(func() string { return "ok" })
 }
 
+// slowPipe: a writer of 10 bytes into a 4-byte receive buffer, a second writer, a reader that
+// wakes at 3 s; with deadline: a third goroutine sets the write deadline to 1 s while the first
+// Write is under way.
+func slowPipe(deadline bool) func() (func(), func(*vrt.Sched) (string, string)) {
+	return func() (func(), func(*vrt.Sched) (string, string)) {
+		res := ""
+		body := func() {
+			a, b := vrt.Pipe("p")
+			b.RecvBuf = 4
+			done := vrt.MakeChan[int](3)
+			var n1 int
+			var e1 error
+			vrt.Go(func() { n1, e1 = a.Write([]byte("0123456789")); vrt.Send(done, 0) })
+			if deadline {
+				vrt.Go(func() {
+					vrt.Sleep(500 * time.Millisecond)
+					a.SetWriteDeadline(vrt.Now().Add(time.Second))
+					vrt.Send(done, 0)
+				})
+			} else {
+				vrt.Go(func() { a.Write([]byte("AB")); vrt.Send(done, 0) })
+			}
+			vrt.Go(func() {
+				vrt.Sleep(3 * time.Second)
+				buf := make([]byte, 64)
+				got := ""
+				want := 12
+				if deadline {
+					want = 1 // whatever was accepted before the deadline passed
+				}
+				for len(got) < want {
+					n, err := b.Read(buf)
+					got += string(buf[:n])
+					if err != nil {
+						break
+					}
+				}
+				res = fmt.Sprintf("%s n1=%d timeout=%v", got, n1, e1 != nil)
+				vrt.Send(done, 0)
+			})
+			vrt.Recv(done)
+			vrt.Recv(done)
+			vrt.Recv(done)
+		}
+		return body, outcomeOnly(func() string { return res })
+	}
+}
+
 func has(r *explore.Result, o string) bool { return r.Outcomes[o] > 0 }
 
 // SelfTest runs textbook programs with known answers through the runtime and explorer.
@@ -216,6 +265,23 @@ func SelfTest() int {
 		}},
 		{"non-blocking select facing a parked sender: both rendezvous and default", explore.Options{Bound: -1, StartBranch: true}, nonBlockingSelect, func(r *explore.Result) string {
 			if len(r.Outcomes) != 2 || !has(r, "recv5") || !has(r, "default") {
+				return fmt.Sprint("got ", r.OutcomeList())
+			}
+			return ""
+		}},
+		{"bounded receive buffer: a Write under way keeps other writers out, nothing is lost or interleaved", explore.Options{Bound: -1, StartBranch: true, Cache: true}, slowPipe(false), func(r *explore.Result) string {
+			for o := range r.Outcomes {
+				if o != "0123456789AB n1=10 timeout=false" && o != "AB0123456789 n1=10 timeout=false" {
+					return fmt.Sprint("got ", r.OutcomeList())
+				}
+			}
+			if len(r.Outcomes) != 2 {
+				return fmt.Sprint("want both orders of the two writes, got ", r.OutcomeList())
+			}
+			return ""
+		}},
+		{"write deadline fails a Write that is already blocked, after the accepted part", explore.Options{Bound: 0, StartBranch: true}, slowPipe(true), func(r *explore.Result) string {
+			if len(r.Outcomes) != 1 || !has(r, "0123 n1=4 timeout=true") {
 				return fmt.Sprint("got ", r.OutcomeList())
 			}
 			return ""
